@@ -156,6 +156,9 @@ def check_sequence(ctx, case, src, dst, repo):
         except Exception: pass
     G.apply_ops(src, case.get('then_src') or [])
     G.apply_ops(dst, case.get('then_dst') or [])
+    if not (G.columns_keep_a_block(src) and G.columns_keep_a_block(dst)):
+        ctx.count(('sequence-degenerate', repr(case)), nontrivial=False)      # a snap emptied a column: not a geometry of the statement
+        return
     c = dict(case, kind='sequence')
     check_mapping(ctx, c, src, dst)
     check_self_identity(ctx, c, 'src', src)
@@ -164,8 +167,10 @@ def check_sequence(ctx, case, src, dst, repo):
 
 
 # ---------------------------------------------------------------- t2incon.transfer_from
-def make_incon(src, nvar, vseed, extras=True):
-    """a source t2incon in the geometry's block order with random states (deterministic in vseed)."""
+def make_incon(src, nvar, vseed, extras=True, populate='lists'):
+    """a source t2incon in the geometry's block order with random states (deterministic in vseed).
+    populate='array': the variables are then assigned through the documented property `inc.variable = array`,
+    which leaves every block holding a row VIEW of the caller's numpy array (kept as inc._caller_array)."""
     from t2incons import t2incon, t2blockincon
     rng = random.Random(vseed)
     inc = t2incon()
@@ -175,12 +180,17 @@ def make_incon(src, nvar, vseed, extras=True):
         seq = rng.choice([(None, None), (None, None), (rng.randint(0, 9), rng.randint(0, 9))]) if extras else (None, None)
         perm = rng.choice([None, None, None, np.array([rng.uniform(1e-16, 1e-12) for _ in range(3)])]) if extras else None
         inc[b] = t2blockincon(var, b, porosity=por, permeability=perm, nseq=seq[0], nadd=seq[1])
+    if populate == 'array':
+        arr = np.array([b.variable for b in inc._blocklist], dtype=np.float64)
+        inc.variable = arr
+        inc._caller_array = arr
     return inc
 
 
 def snapshot(inc):
     def v(x): return None if x is None else (list(np.asarray(x, dtype=float).ravel()) if isinstance(x, (list, tuple, np.ndarray)) else x)
-    return ([(b.block, list(b.variable), b.porosity, v(b.permeability), b.nseq, b.nadd) for b in inc._blocklist],
+    return ([(b.block, [float(x) for x in b.variable], b.porosity, v(b.permeability), b.nseq, b.nadd) for b in inc._blocklist],
+            None if getattr(inc, '_caller_array', None) is None else inc._caller_array.tolist(),
             sorted(inc._block.keys()), copy.deepcopy(inc.timing), inc.simulator)
 
 
@@ -202,7 +212,7 @@ def check_incon(ctx, case, src, dst, repo, inc=None):
     """t2incon.transfer_from: default mappings, and explicit ones when block_mapping cannot produce them."""
     from t2incons import t2incon
     name = 'incon-transfer'
-    if inc is None: inc = make_incon(src, case['nvar'], case['vseed'])
+    if inc is None: inc = make_incon(src, case['nvar'], case['vseed'], populate=case.get('populate', 'lists'))
     before = snapshot(inc)
     new = t2incon()
     maps = None
@@ -261,8 +271,51 @@ def check_incon(ctx, case, src, dst, repo, inc=None):
         if not ok:
             fail(ctx, name, 'incon_transfer:atmosphere-%d-to-%d' % (ta, tb), case, 'target atmosphere block %r has %r' % (b, got), '%s: %r' % (how, want))
             return new
+    # the result does not depend on the history of the receiving object: a t2incon that already holds another
+    # transfer's blocks, and a second call on the same object, give the same blocks; the source stays untouched
+    dump = lambda o: [(b.block, state(b)) for b in o._blocklist]
+    fresh = dump(new)
+    used = _USED.setdefault('inc', t2incon())
+    for obj, how in ((used, 'an object that received an earlier transfer'), (new, 'a second call on the same object')):
+        try:
+            if case.get('explicit'): obj.transfer_from(inc, src, dst, maps[0], maps[1])
+            else: obj.transfer_from(inc, src, dst)
+        except Exception as e:
+            fail(ctx, name, 'incon_transfer:reused-receiver-raises-%s' % type(e).__name__, case, '%s: %r' % (how, e), 'the same result as on a fresh object')
+            return new
+        if dump(obj) != fresh:
+            fail(ctx, name, 'incon_transfer:depends-on-receiver-history', case, '%s gives different blocks' % how, 'the same result as on a fresh object')
+            return new
+    if snapshot(inc) != before:
+        fail(ctx, name, 'incon_transfer:source-altered', case, 'source t2incon differs after repeated transfers', 'source unchanged')
+        return new
     ctx.count(('inc', repr(case)))
     return new
+
+
+_USED = {}
+
+
+def check_repeat(ctx, case, src, dst, first=None):
+    """results do not depend on earlier calls or on other live objects: the mapping computed again - after other
+    geometries were created and mapped in the same process - equals the first one."""
+    name = 'block-mapping'
+    from mulgrids import mulgrid
+    try:
+        if first is None:
+            first = src.block_mapping(dst, True)
+            a = mulgrid().rectangular([7.] * 3, [9.] * 2, [4.] * 3, atmos_type=1)
+            b = mulgrid().rectangular([5.] * 4, [6.] * 3, [3.] * 4, atmos_type=0, origin=[1., 1., 0.])
+            a.block_mapping(b, True); b.block_mapping(a, True); dst.block_mapping(src, True); dst.block_mapping(dst); src.block_mapping(src)
+        again = src.block_mapping(dst, True)
+    except Exception as e:
+        fail(ctx, name, 'block_mapping:repeat-raises-%s' % type(e).__name__, dict(case, kind='repeat'), repr(e), 'the mapping of the first call')
+        return
+    if again[0] != first[0] or again[1] != first[1]:
+        bad = [(k, first[0].get(k), again[0].get(k)) for k in first[0] if first[0].get(k) != again[0].get(k)][:3]
+        fail(ctx, name, 'block_mapping:depends-on-earlier-calls', dict(case, kind='repeat'), 'a later call gives %r' % bad, 'the mapping of the first call')
+        return
+    ctx.count(('repeat', repr(case.get('src')), repr(case.get('dst'))))
 
 
 # ---------------------------------------------------------------- t2data.transfer_from on an identical geometry
@@ -273,7 +326,7 @@ def category_names(conv):
     return ('top', 'bot') if conv == 1 else ('tp', 'bt')
 
 
-def make_generators(geo, gseed, conforming_names=False):
+def make_generators(geo, gseed, conforming_names=False, all_columns=False):
     """generators at top, bottom and interior blocks, with and without tables (deterministic in gseed).
     -> (list of t2generator, top_generator, bottom_generator)"""
     from t2data import t2generator
@@ -290,13 +343,15 @@ def make_generators(geo, gseed, conforming_names=False):
         g.rate = [rng.uniform(-5, 5) for _ in range(n)]
         if rng.random() < 0.5:
             g.itab = 'E'; g.enthalpy = [rng.uniform(1e5, 1e6) for _ in range(n)]
-    for c in rng.sample(cols, min(len(cols), rng.randint(1, 3))):
-        lay = geo.layerlist[geo.num_layers - c.num_layers]
+    def top_layer(c):       # the column's first layer below ground, from its surface (not from the cached count)
+        return next(l for l in geo.layerlist[1:] if c.surface > l.bottom)
+    for c in (cols if all_columns else rng.sample(cols, min(len(cols), rng.randint(1, 3)))):
+        lay = top_layer(c)
         g = t2generator(name=geo.block_name(top, c.name), block=geo.block_name(lay.name, c.name),
                         type=rng.choice(['MASS', 'HEAT', 'COM1']), gx=rng.uniform(-10, 10), ex=rng.choice([0.0, 8.4e4]))
         if rng.random() < 0.4: table(g)
         gens.append(g)
-    for c in rng.sample(cols, min(len(cols), rng.randint(1, 3))):
+    for c in (cols if all_columns else rng.sample(cols, min(len(cols), rng.randint(1, 3)))):
         g = t2generator(name=geo.block_name(bot, c.name), block=geo.block_name(geo.layerlist[-1].name, c.name),
                         type=rng.choice(['HEAT', 'MASS']), gx=rng.uniform(0, 10) * c.area)
         if rng.random() < 0.4: table(g)
@@ -341,12 +396,12 @@ def gen_close(a, b, rtol=1e-12):
     return True
 
 
-def make_source_data(geo, gseed, conforming_names=False):
+def make_source_data(geo, gseed, conforming_names=False, all_columns=False):
     from t2data import t2data
     from t2grids import t2grid
     dat = t2data()
     dat.grid = t2grid().fromgeo(geo)
-    gens, top, bot = make_generators(geo, gseed, conforming_names)
+    gens, top, bot = make_generators(geo, gseed, conforming_names, all_columns)
     for g in gens: dat.add_generator(g)
     return dat, top, bot
 
@@ -473,7 +528,7 @@ def check_generators_identity(ctx, case, geo, geo2):
     from t2data import t2data
     name = 'generator-transfer-identity'
     rename = bool(case.get('rename')); preserve = bool(case.get('preserve'))
-    dat, top, bot = make_source_data(geo, case['gseed'], conforming_names=rename)
+    dat, top, bot = make_source_data(geo, case['gseed'], conforming_names=rename, all_columns=bool(case.get('all_columns')))
     before = [gen_state(g) for g in dat.generatorlist]
     new = t2data()
     try:
@@ -504,4 +559,16 @@ def check_generators_identity(ctx, case, geo, geo2):
             fail(ctx, name, 'transfer_from:identical-geometry-total-generation', case,
                  'total %s generation %r' % (t, float(b.sum())), 'total %r (per block equal)' % float(a.sum()))
             return
+    # a t2data object that already received another transfer gives the same generators
+    used = _USED.setdefault('dat', t2data())
+    try:
+        used.transfer_from(dat, geo, geo2, top_generator=top, bottom_generator=bot,
+                           rename_generators=rename, preserve_generation_totals=preserve)
+        again = [gen_state(g) for g in used.generatorlist]
+    except Exception as e:
+        again = repr(e)
+    if again != got or set(used.generator.keys()) != set(new.generator.keys()):
+        fail(ctx, name, 'transfer_from:depends-on-receiver-history', case, 'an object that received an earlier transfer gives %s' % (str(again)[:200],),
+             'the same %d generators as a fresh object' % len(got))
+        return
     ctx.count(('gen', repr(case)))
